@@ -312,3 +312,85 @@ class CoreModel(Model):
 class _Subscriptable:
     def __getitem__(self, k):
         return self
+
+
+# ----------------------------------------------------------------------
+# the scenario dispatch of the Young's modulus recipe (af_emodulus.py)
+
+AFE = "dclab/rtdc_dataset/feat_anc_core/af_emodulus.py"
+VISC = "dclab/features/emodulus/viscosity.py"
+
+
+def module_value(it, env, rel, name):
+    """value of the module-level `name` of file `rel` after running the
+    module's top-level assignments and loops in order (imports, function
+    and class definitions are skipped)"""
+    import ast
+    frame = L.Frame(env, {})
+    tree = it.repo.tree(rel)
+    for st in tree.body:
+        if isinstance(st, (ast.Assign, ast.AnnAssign, ast.AugAssign,
+                           ast.For, ast.If)):
+            try:
+                it.stmt(st, frame)
+            except AnalysisError:
+                # a statement that needs something un-modelled: only a
+                # problem if the wanted name depends on it
+                continue
+        if name in frame.loc and isinstance(st, (ast.Assign, ast.AnnAssign)):
+            tg = st.targets if isinstance(st, ast.Assign) else [st.target]
+            if any(isinstance(t, ast.Name) and t.id == name for t in tg):
+                pass
+    if name not in frame.loc:
+        raise AnalysisError(f"{rel}: module-level `{name}` cannot be "
+                            "evaluated")
+    return frame.loc[name]
+
+
+class EmodDispatchModel:
+    """`compute_emodulus` loaded from its syntax tree; the two computing
+    functions are stand-ins that record which scenario was chosen"""
+
+    def __init__(self, repo):
+        from .lib_C03 import _install_walrus
+        from .lib_common import extras
+        _install_walrus()
+        self.it = L.Interp(repo)
+        venv = self.it.env(VISC, {**extras(L), "np": L.namespace("np")})
+        self.known_media = list(module_value(self.it, venv, VISC,
+                                             "KNOWN_MEDIA"))
+        if len(self.known_media) < 4 or not all(
+                isinstance(x, str) for x in self.known_media):
+            raise AnalysisError("KNOWN_MEDIA could not be folded")
+        self.calls = []
+        visc = L.namespace("viscosity", KNOWN_MEDIA=self.known_media)
+        emod = L.namespace("emodulus", viscosity=visc)
+
+        def known(mm, temperature):
+            self.calls.append(("known media", temperature))
+            return ("emodulus", "known media", temperature)
+
+        def visc_only(mm):
+            self.calls.append(("viscosity only",))
+            return ("emodulus", "viscosity only")
+        ext = {
+            **extras(L),
+            "warnings": L.namespace("warnings", warn=lambda *a, **k: None),
+            "features": L.namespace("features", emodulus=emod),
+            "compute_emodulus_known_media": known,
+            "compute_emodulus_visc_only": visc_only,
+            "DeprecationWarning": L.ExcClass("DeprecationWarning"),
+        }
+        self.env = self.it.env(AFE, ext)
+        self.func = self.env.lookup("compute_emodulus")
+
+    def run(self, calccfg, has_temp):
+        feats = {"area_um": FeatData(b"\x01\x01\x01\x01"),
+                 "deform": FeatData(b"\x02\x02\x02\x02")}
+        if has_temp:
+            feats["temp"] = FeatData(b"\x17\x17\x17\x17")
+        ds = DS(feats, {"calculation": dict(calccfg),
+                        "setup": {"channel width": 20.0, "flow rate": 0.04},
+                        "imaging": {"pixel size": 0.34}})
+        self.calls = []
+        return L.run(lambda: self.func(ds)), ds
